@@ -4,7 +4,8 @@ from fractions import Fraction as F
 from harness import core, fr
 from harness.core import gq, gbool, glist, gopt
 
-HEADER = """From FrameModel Require Import Num.QcTac Geometry.Rect Cases.Cmp Stog.CreateStog Stog.StogPost.
+HEADER = """From FrameModel Require Import Num.QcTac Geometry.Rect Cases.Cmp Stog.CreateStog Stog.StogPost
+  Stog.StogHist Cases.CmpC06.
 Open Scope Qc_scope."""
 
 ASSUMPTIONS = [
@@ -12,6 +13,15 @@ ASSUMPTIONS = [
     "completeness is proved for rectangles at least 2*eps wide and high (FRAME's own eps is 1e-12 of the smallest dimension); "
     "degenerate cases are still compared model-vs-implementation but not judged by the oracle",
     "which of several valid trunks is selected is not compared (verified post-condition checker stog_post_ok instead)",
+    "translation tie of find_location / area_overlap (shared with C18, see harness/props/c18.py::translation_tie): a source "
+    "outside the translator's subset is recorded as 'translator: skipped (<reason>)', triples the correspondence budget and is "
+    "not a violation by itself; a translated definition no longer proved equal to the model is",
+    "object histories (kind 'hist'): a pool of real Rectangle objects goes through a sequence of create_stog calls on lists "
+    "that share objects, in-place and setter moves / resizes, roles written through the public location setter, new objects "
+    "and read-only probes; after EVERY operation the value of EVERY object is read back through the public attributes and the "
+    "model (Stog/StogHist.v, a function of the current values) must agree; the oracle judges every call on the geometry read "
+    "back just before it.  The same object never occurs twice in one list (the model identifies the candidate trunk by "
+    "position, the code by object identity)",
 ]
 
 SIDES = ["NORTH", "SOUTH", "EAST", "WEST"]
@@ -115,12 +125,111 @@ def gen_case(rng):
     return {"kind": kind, "eps": eps, "aeps": aeps, "rects": rects}
 
 
+def gen_extra(rng):
+    """input classes the random stream reaches rarely or never: equal areas (the scan of create_stog stops at the
+    first candidate that is NOT LARGER than the best one), long lists (9, 10, 15, 16, 17, 31, 32, 33, 64, 100
+    branches), integer coordinates (Point / Shape built from Python ints), rectangles left of / below the origin,
+    straddling it or ending exactly at 0, lists given trunk-last / reversed / sorted by area"""
+    kind = rng.choice(["equal", "equal", "many", "ints", "negative", "negative", "order"])
+    eps = rng.choice([F(1, 1024), F(1, 64), F(0), F(1, 4096)])
+    aeps = rng.choice([F(1, 1024), F(1, 16), F(0)])
+    case = None
+    if kind == "equal":
+        a = F(rng.randrange(1, 6))
+        b = F(rng.randrange(1, 6))
+        x0, y0 = F(rng.randrange(2, 10)), F(rng.randrange(2, 10))
+        style = rng.choice(["twins", "twins3", "area-tie", "bigger-invalid"])
+        if style == "twins":               # two equal rectangles side by side: each is a trunk for the other
+            rects = [from_box((x0, y0, x0 + a, y0 + b)), from_box((x0 + a, y0, x0 + 2 * a, y0 + b))]
+        elif style == "twins3":            # three in a row: only the middle one is a trunk, all areas equal
+            rects = [from_box((x0 + i * a, y0, x0 + (i + 1) * a, y0 + b)) for i in range(3)]
+        elif style == "area-tie":          # trunk 2a x 2b with a branch a x 4b on its east side, flush with the south corner: same area
+            rects = [from_box((x0, y0, x0 + 2 * a, y0 + 4 * b)), from_box((x0 + 2 * a, y0, x0 + 4 * a, y0 + 4 * b)),
+                     from_box((x0, y0 + 4 * b, x0 + a, y0 + 5 * b))]
+        else:                              # the largest rectangle is no trunk, a smaller one is; another has the trunk's area
+            rects = [from_box((x0, y0, x0 + 2 * a, y0 + 2 * b)), from_box((x0 + 2 * a, y0, x0 + 3 * a, y0 + b)),
+                     from_box((x0, y0 + 2 * b, x0 + a, y0 + 3 * b)), from_box((x0 + 10 * a, y0, x0 + 12 * a, y0 + 2 * b))]
+            if rng.random() < 0.5:
+                rects = rects[:3]
+        rng.shuffle(rects)
+        case = {"kind": "equal/" + style, "eps": eps, "aeps": aeps, "rects": rects}
+    elif kind == "many":
+        k = rng.choice([9, 10, 15, 16, 17, 31, 32, 33, 64, 100])
+        d = F(1, 4)
+        north = (k + 1) // 2
+        x0, y0 = F(3), F(5)
+        Wd = north * d
+        rects = [from_box((x0, y0, x0 + Wd, y0 + 2))]
+        for i in range(k):
+            j, up = (i, True) if i < north else (i - north, False)
+            h = F(rng.randrange(1, 5), 4)
+            rects.append(from_box((x0 + j * d, y0 + 2, x0 + (j + 1) * d, y0 + 2 + h) if up else
+                                  (x0 + j * d, y0 - h, x0 + (j + 1) * d, y0)))
+        bad = rng.random() < 0.3
+        if bad:                            # one branch pulled away: no orthogon any more
+            i = rng.randrange(1, len(rects))
+            rects[i] = dict(rects[i], cy=rects[i]["cy"] + 10)
+        order = rng.choice(["trunk-first", "trunk-last", "shuffled"])
+        if order == "trunk-last":
+            rects = rects[1:] + rects[:1]
+        elif order == "shuffled":
+            rng.shuffle(rects)
+        case = {"kind": f"many/{k}", "eps": eps, "aeps": aeps, "rects": rects}
+    else:
+        base = gen_case(rng)
+        while len(base["rects"]) < 2 or base["kind"] == "degenerate":
+            base = gen_case(rng)
+        rects = base["rects"]
+        eps, aeps = base["eps"], base["aeps"]
+        if kind == "ints":
+            # every coordinate an integer, handed over as Python ints
+            m = 8
+            rects = [dict(r, cx=r["cx"] * m, cy=r["cy"] * m, w=r["w"] * m, h=r["h"] * m) for r in rects]
+            if not all(core.frac(r[f]).denominator == 1 for r in rects for f in ("cx", "cy", "w", "h")):
+                return gen_extra(rng)
+            case = {"kind": "ints", "eps": eps, "aeps": aeps, "rects": rects, "ints": True}
+        elif kind == "negative":
+            bs = [box(r) for r in rects]
+            how = rng.choice(["left", "straddle", "end-at-0", "both-axes"])
+            xs = sorted({b[0] for b in bs} | {b[2] for b in bs})
+            ys = sorted({b[1] for b in bs} | {b[3] for b in bs})
+            dx = {"left": xs[-1] + 3, "straddle": (xs[0] + xs[-1]) / 2, "end-at-0": xs[-1], "both-axes": rng.choice(xs)}[how]
+            dy = rng.choice(ys) if how == "both-axes" else F(0)
+            rects = [dict(r, cx=r["cx"] - dx, cy=r["cy"] - dy) for r in rects]
+            case = {"kind": "negative/" + how, "eps": eps, "aeps": aeps, "rects": rects}
+        else:
+            how = rng.choice(["reversed", "by-area", "by-area-desc", "trunk-last"])
+            ar = lambda r: core.frac(r["w"]) * core.frac(r["h"])
+            if how == "reversed":
+                rects = rects[::-1]
+            elif how == "by-area":
+                rects = sorted(rects, key=ar)
+            elif how == "by-area-desc":
+                rects = sorted(rects, key=ar, reverse=True)
+            else:
+                big = max(rects, key=ar)
+                rects = [r for r in rects if r is not big] + [big]
+            case = {"kind": "order/" + how, "eps": eps, "aeps": aeps, "rects": rects}
+    return case
+
+
+def mk_rect_c06(d, ints=False):
+    if not ints:
+        return fr.mk_rect(d)
+    from frame.geometry.geometry import Rectangle, Point, Shape
+    r = Rectangle(center=Point(int(d["cx"]), int(d["cy"])), shape=Shape(int(d["w"]), int(d["h"])),
+                  fixed=bool(d.get("fixed", False)), hard=bool(d.get("hard", False)), region=d.get("region", "_"))
+    return r
+
+
 def run_impl(case):
+    if case.get("kind") == "hist":
+        return run_hist_impl(case)
     from frame.geometry.geometry import Rectangle, create_stog
     Rectangle.undefine_epsilon()
     Rectangle.set_epsilon(float(case["eps"]), float(case["aeps"]))
     try:
-        rects = [fr.mk_rect(d) for d in case["rects"]]
+        rects = [mk_rect_c06(d, case.get("ints", False)) for d in case["rects"]]
         for r in rects:
             r.location = Rectangle.StogLocation.NO_POLYGON
         pre = [r.find_location(s).name for r in rects[:3] for s in rects[:3]]
@@ -134,6 +243,8 @@ def run_impl(case):
 
 
 def to_coq(case, obs):
+    if case.get("kind") == "hist":
+        return hist_to_coq(case, obs)
     eps, aeps = gq(case["eps"]), gq(case["aeps"])
     RS = glist([fr.grect(dict(d, loc="NOPOLY")) for d in case["rects"]])
     if obs["b"] is None:
@@ -177,7 +288,7 @@ def geom_key(d):
     return tuple(core.frac(d[k]) for k in ("cx", "cy", "w", "h")) + (d["region"], d["fixed"], d["hard"])
 
 
-def oracle(case, obs):
+def oracle_one(case, obs):
     rects = case["rects"]
     eps, aeps = case["eps"], case["aeps"]
     if not rects:
@@ -210,13 +321,318 @@ def oracle(case, obs):
     return None
 
 
+
+
+# --------------------------------------------------------------------------
+# object histories
+# --------------------------------------------------------------------------
+ROLES = ["TRUNK", "NORTH", "SOUTH", "EAST", "WEST", "NOPOLY"]
+
+
+def far_rect(rng):
+    return from_box((F(40 + rng.randrange(0, 8)), F(40), F(44 + rng.randrange(0, 8)) + 4, F(44)))
+
+
+def gen_hist(rng):
+    """A pool of rectangles and a sequence of operations on it.  Built from an ordinary case (usually a
+    single-trunk orthogon) so that positive answers - which leave roles behind - are frequent."""
+    base = gen_case(rng)
+    while len(base["rects"]) < 2:
+        base = gen_case(rng)
+    eps, aeps = base["eps"], base["aeps"]
+    pool = [dict(r) for r in base["rects"]]
+    for r in pool:
+        if rng.random() < 0.15:
+            r["loc"] = rng.choice(ROLES)            # a role left by "somebody else" before the history starts
+    n = len(pool)
+    ops = []
+    cur = [dict(r) for r in pool]                  # the generator's own idea of the current geometry
+    big = max(range(n), key=lambda i: core.frac(cur[i]["w"]) * core.frac(cur[i]["h"]))
+
+    def alive():
+        return list(range(len(cur)))
+
+    def a_list(kind=None):
+        ids = alive()
+        kind = kind or rng.choice(["all", "all", "perm", "sub", "sub2", "old"])
+        if kind == "old":
+            ids = list(range(n))
+        if kind == "sub" and len(ids) > 2:
+            ids.remove(rng.choice(ids))
+        if kind == "sub2" and len(ids) > 2:
+            ids = rng.sample(ids, rng.randrange(1, len(ids)))
+        if kind != "all" or rng.random() < 0.5:
+            rng.shuffle(ids)
+        return ids
+
+    def move(i, x, y, mech=None):
+        mech = mech or rng.choice(["attr", "iadd", "setter"])
+        ops.append(["move", mech, i, x, y])
+        cur[i]["cx"], cur[i]["cy"] = x, y
+
+    def resize(i, w, h, mech=None):
+        mech = mech or rng.choice(["attr", "setter"])
+        ops.append(["resize", mech, i, w, h])
+        cur[i]["w"], cur[i]["h"] = w, h
+
+    def new(r):
+        ops.append(["new", dict(r)])
+        cur.append(dict(r))
+        return len(cur) - 1
+
+    template = rng.choice(["replace-front", "replace-front", "move-away", "move-back", "prepend", "swap-group",
+                           "resize", "setloc", "random", "random", "random"])
+    if template == "replace-front":
+        # recognise; then a fresh rectangle takes the place of one element (often the trunk) and goes in front
+        ops.append(["call", a_list("all")])
+        k = new(far_rect(rng) if rng.random() < 0.7 else from_box(box(cur[big])))
+        gone = big if rng.random() < 0.7 else rng.randrange(n)
+        rest = [i for i in range(n) if i != gone]
+        rng.shuffle(rest)
+        ops.append(["call", [k] + rest])
+        if rng.random() < 0.5:
+            ops.append(["call", a_list("old")])
+    elif template == "prepend":
+        ops.append(["call", a_list("all")])
+        k = new(far_rect(rng))
+        rest = list(range(n))
+        rng.shuffle(rest)
+        ops.append(["call", [k] + rest])
+        ops.append(["call", rest + [k]])
+    elif template == "move-away":
+        ops.append(["call", a_list("all")])
+        i = big if rng.random() < 0.6 else rng.randrange(n)
+        ox, oy = cur[i]["cx"], cur[i]["cy"]
+        move(i, ox + F(rng.randrange(20, 40)), oy + F(rng.randrange(0, 30)))
+        ops.append(["call", a_list(rng.choice(["all", "perm"]))])
+        if rng.random() < 0.6:
+            move(i, ox, oy)
+            ops.append(["call", a_list("all")])
+    elif template == "move-back":
+        # broken first, repaired in place afterwards
+        i = rng.randrange(n)
+        ox, oy = cur[i]["cx"], cur[i]["cy"]
+        if rng.random() < 0.5:
+            ops.append(["probe", rng.randrange(n), i])
+        move(i, ox + F(rng.randrange(1, 9), 4) * rng.choice([-1, 1]), oy)
+        ops.append(["call", a_list("all")])
+        move(i, ox, oy)
+        ops.append(["call", a_list("all")])
+    elif template == "swap-group":
+        # a second, unrelated group; lists mixing the two
+        g2 = [new(far_rect(rng)) for _ in range(rng.choice([1, 2]))]
+        ops.append(["call", list(range(n))])
+        ops.append(["call", g2 + rng.sample(range(n), rng.randrange(1, n))])
+        ops.append(["call", [rng.choice(g2)] + [i for i in range(n) if i != big]])
+        ops.append(["call", list(range(n))])
+    elif template == "resize":
+        ops.append(["call", a_list("all")])
+        i = rng.randrange(n)
+        w, h = cur[i]["w"], cur[i]["h"]
+        resize(i, w * rng.choice([F(1, 2), 2, F(3, 2)]), h)
+        ops.append(["call", a_list("all")])
+        resize(i, w, h)
+        ops.append(["call", a_list("perm")])
+    elif template == "setloc":
+        for i in rng.sample(range(n), rng.randrange(1, n + 1)):
+            ops.append(["setloc", i, rng.choice(ROLES)])
+        ops.append(["call", a_list()])
+        ops.append(["setloc", rng.randrange(n), rng.choice(ROLES)])
+        ops.append(["call", a_list()])
+    else:
+        for _ in range(rng.randrange(3, 9)):
+            what = rng.choices(["call", "move", "resize", "setloc", "new", "probe"], [6, 3, 1, 1, 2, 2])[0]
+            ids = alive()
+            i = rng.choice(ids)
+            if what == "call":
+                ops.append(["call", a_list()])
+            elif what == "move":
+                if rng.random() < 0.5:
+                    move(i, cur[i]["cx"] + F(rng.randrange(-8, 9), 4), cur[i]["cy"] + F(rng.randrange(-8, 9), 4))
+                elif rng.random() < 0.5:
+                    move(i, cur[i]["cx"] + 30, cur[i]["cy"])
+                else:
+                    o = pool[i] if i < n else cur[i]
+                    move(i, o["cx"], o["cy"])       # back to where it started
+            elif what == "resize":
+                resize(i, cur[i]["w"] * rng.choice([F(1, 2), 2]), cur[i]["h"] * rng.choice([1, 1, 2]))
+            elif what == "setloc":
+                ops.append(["setloc", i, rng.choice(ROLES)])
+            elif what == "new":
+                new(far_rect(rng) if rng.random() < 0.5 else from_box(box(cur[rng.choice(ids)])))
+            else:
+                ops.append(["probe", i, rng.choice(ids)])
+        ops.append(["call", a_list()])
+    # the very list object an earlier call was given (reordered by that call), as Module.create_stog does
+    calls = [k for k, op in enumerate(ops) if op[0] == "call" and op[1]]
+    if calls and rng.random() < 0.45:
+        k = rng.choice(calls)
+        at = rng.randrange(k + 1, len(ops) + 1)
+        ops.insert(at, ["recall", k])
+        if rng.random() < 0.4:
+            ops.append(["recall", k])
+    if rng.random() < 0.04:
+        ops.append(["call", []])
+    return {"kind": "hist", "eps": eps, "aeps": aeps, "rects": pool, "ops": ops, "template": template}
+
+
+def run_hist_impl(case):
+    from frame.geometry.geometry import Rectangle, Point, Shape, create_stog
+    Rectangle.undefine_epsilon()
+    Rectangle.set_epsilon(float(case["eps"]), float(case["aeps"]))
+    Loc = Rectangle.StogLocation
+    try:
+        objs = [fr.mk_rect(d) for d in case["rects"]]
+        steps = []
+        lists = {}
+        for k, op in enumerate(case["ops"]):
+            rec = {}
+            if op[0] in ("call", "recall"):
+                if op[0] == "call":
+                    lst = lists[k] = [objs[i] for i in op[1]]
+                else:
+                    lst = lists[op[1]]
+                rec["idxs"] = [next(n for n, o in enumerate(objs) if o is x) for x in lst]
+                pre = [fr.rect_obs(r) for r in objs]
+                try:
+                    rec["b"] = bool(create_stog(lst))
+                except AssertionError:
+                    rec["b"] = None
+                rec["pre"] = pre
+                rec["order"] = [next(k for k, o in enumerate(objs) if o is x) for x in lst]
+            elif op[0] == "move":
+                _, mech, i, x, y = op
+                r = objs[i]
+                if mech == "attr":
+                    r.center.x = float(x)
+                    r.center.y = float(y)
+                elif mech == "iadd":
+                    r.center.x += float(x) - r.center.x
+                    r.center.y += float(y) - r.center.y
+                else:
+                    r.center = Point(float(x), float(y))
+            elif op[0] == "resize":
+                _, mech, i, w, h = op
+                r = objs[i]
+                if mech == "attr":
+                    r.shape.w = float(w)
+                    r.shape.h = float(h)
+                else:
+                    r.shape = Shape(float(w), float(h))
+            elif op[0] == "setloc":
+                objs[op[1]].location = getattr(Loc, "NO_POLYGON" if op[2] == "NOPOLY" else op[2])
+            elif op[0] == "new":
+                objs.append(fr.mk_rect(op[1]))
+            elif op[0] == "probe":
+                a, c = objs[op[1]], objs[op[2]]
+                bb = a.bounding_box
+                rec["bbox"] = [bb.ll.x, bb.ll.y, bb.ur.x, bb.ur.y]
+                rec["loc"] = fr.LOCS[a.find_location(c).name]
+                rec["ov"] = a.area_overlap(c)
+            else:
+                raise ValueError(op[0])
+            rec["post"] = [fr.rect_obs(r) for r in objs]
+            steps.append(rec)
+        return {"steps": steps}
+    finally:
+        Rectangle.undefine_epsilon()
+
+
+def gnats(l):
+    return "[" + "; ".join(str(int(i)) for i in l) + "]%nat"
+
+
+def ghop(op, rec=None):
+    if op[0] in ("call", "recall"):
+        return f"HCall {gnats(rec['idxs'])}"
+    if op[0] == "move":
+        return f"HMove {'Setter' if op[1] == 'setter' else 'InPlace'} {int(op[2])}%nat {gq(op[3])} {gq(op[4])}"
+    if op[0] == "resize":
+        return f"HResize {'Setter' if op[1] == 'setter' else 'InPlace'} {int(op[2])}%nat {gq(op[3])} {gq(op[4])}"
+    if op[0] == "setloc":
+        return f"HSetLoc {int(op[1])}%nat {fr.LOCS[op[2]]}"
+    if op[0] == "new":
+        return f"HNew {fr.grect(op[1])}"
+    if op[0] == "probe":
+        return f"HProbe {int(op[1])}%nat {int(op[2])}%nat"
+    raise ValueError(op[0])
+
+
+def hist_to_coq(case, obs):
+    eps, aeps = gq(case["eps"]), gq(case["aeps"])
+    steps = []
+    for op, rec in zip(case["ops"], obs["steps"]):
+        post = glist([fr.grect(d) for d in rec["post"]])
+        if op[0] in ("call", "recall"):
+            o = f"OCall {gopt(None if rec['b'] is None else gbool(rec['b']))} {gnats(rec['order'])} {post}"
+        elif op[0] == "probe":
+            o = f"OProbe {rec['loc']} {gq(rec['ov'])} {post}"
+        else:
+            o = f"OState {post}"
+        steps.append(f"({ghop(op, rec)}, {o})")
+    pool = glist([fr.grect(d) for d in case["rects"]])
+    return f"hist_check {eps} {aeps} {pool} {glist(steps)}"
+
+
+def hist_oracle(case, obs):
+    """every call judged on its own, on the geometry read back from the objects just before it"""
+    for k, (op, rec) in enumerate(zip(case["ops"], obs["steps"])):
+        if op[0] not in ("call", "recall"):
+            continue
+        idxs = rec["idxs"]
+        sub = {"eps": case["eps"], "aeps": case["aeps"], "rects": [rec["pre"][i] for i in idxs]}
+        out = [rec["post"][i] for i in rec["order"]]
+        why = oracle_one(sub, {"b": rec["b"], "out": out if rec["b"] is not None else []})
+        if why:
+            return f"step {k} (create_stog on objects {idxs}): {why}"
+        if sorted(rec["order"]) != sorted(idxs):
+            return f"step {k}: the list no longer holds the same objects"
+        for i, (a, c) in enumerate(zip(rec["pre"], rec["post"])):
+            if geom_key(a) != geom_key(c):
+                return f"step {k}: recognition altered rectangle {i}"
+    return None
+
+
+def hist_shrink(case):
+    ops = case["ops"]
+    calls = [k for k, op in enumerate(ops) if op[0] in ("call", "recall")]
+    for k in calls[:-1]:
+        yield dict(case, ops=ops[:k + 1])
+
+    def without(k):
+        out = []
+        for n, op in enumerate(ops):
+            if n == k or (op[0] == "recall" and op[1] == k):
+                continue
+            out.append(["recall", op[1] - 1] if op[0] == "recall" and op[1] > k else op)
+        return out
+    for k in range(len(ops)):
+        if ops[k][0] != "new" and len(ops) > 1:
+            yield dict(case, ops=without(k))
+    for k, op in enumerate(ops):
+        if op[0] == "call" and len(op[1]) > 1:
+            for j in range(len(op[1])):
+                yield dict(case, ops=ops[:k] + [["call", op[1][:j] + op[1][j + 1:]]] + ops[k + 1:])
+
+
+def oracle(case, obs):
+    if case.get("kind") == "hist":
+        return hist_oracle(case, obs)
+    return oracle_one(case, obs)
+
+
 def failure_key(case, why):
+    if case.get("kind") == "hist":
+        return "C06/history"
     if len(case["rects"]) != len({geom_key(d) for d in case["rects"]}):
         return "C06/repeated-rectangle"
     return "C06/create_stog"
 
 
 def shrink(case):
+    if case.get("kind") == "hist":
+        yield from hist_shrink(case)
+        return
     rs = case["rects"]
     for i in range(len(rs)):
         if len(rs) > 1:
@@ -226,16 +642,35 @@ def shrink(case):
 def run(ctx, out, replay=None):
     # second tie: find_location / area_overlap re-translated from the current source and proved equal to the model
     from harness.props import c18
-    c18.translation_tie(ctx, out, pid="C06")
-    n = 4000 if ctx.quick() else 80000
+    # translator skipped: the correspondence budget is tripled (thorough tier: x1.5, to stay within its 15 minutes)
+    mult = (3 if ctx.quick() else 1.5) if c18.translation_tie(ctx, out, pid="C06") == "skipped" else 1
+    n = int((4000 if ctx.quick() else 60000) * mult)
     out.rule = ("trunk with 1-5 branches on random sides (flush with corners, partial extent), near misses (gap, overhang, "
                 "overlap, perturbation around eps), repeated rectangles, random layouts, degenerate thin rectangles, random "
-                "order; non-trivial = at least two rectangles; distinct by canonical hash")
+                "order; non-trivial = at least two rectangles; distinct by canonical hash.  Extra stream: equal areas (twins, rows of "
+                "equal rectangles, a branch with the trunk's area, a larger rectangle that is no trunk), long lists (9..100 branches, "
+                "trunk first / last / shuffled, intact or with one branch pulled away), integer coordinates passed as Python ints, "
+                "rectangles left of / straddling / ending exactly at the origin, lists reversed or sorted by area.  Object histories: a pool built from such "
+                "a case, then 2-10 operations from templates (recognise, then replace one element - often the trunk - by a fresh "
+                "rectangle put in front; prepend / append a fresh one; move an element away in place and back; break first and "
+                "repair in place; a second group and lists mixing the groups; resize; arbitrary roles through the setter) or drawn at "
+                "random (calls on the whole pool, permutations, sub-lists; moves by attribute assignment, += and the centre setter; "
+                "resizes; new rectangles; read-only probes; create_stog again on the very list object an earlier call was given), every "
+                "object read back after every operation")
     cases = []
     if replay and "case" in replay:
         cases.append(fr.unjson(replay["case"]))
     cases += fr.load_corpus("C06")
     while len(cases) < n:
         cases.append(gen_case(ctx.rng))
+    xrng = __import__("random").Random(f"C06-extra-{ctx.seed}")
+    for _ in range(int((300 if ctx.quick() else 2000) * mult)):
+        cases.append(gen_extra(xrng))
+    nh = int((1500 if ctx.quick() else 8000) * mult)
+    hrng = __import__("random").Random(f"C06-hist-{ctx.seed}")
+    for _ in range(nh):
+        cases.append(gen_hist(hrng))
+    out.extra["history_cases"] = nh
     fr.run_cases(ctx, out, cases, run_impl, to_coq, oracle, failure_key, HEADER,
-                 dist_key=lambda c: c["kind"], nontrivial=lambda c: len(c["rects"]) >= 2, shard=250, shrink=shrink)
+                 dist_key=lambda c: c["kind"] + ("/" + c["template"] if "template" in c else ""),
+                 nontrivial=lambda c: len(c["rects"]) >= 2, shard=250, shrink=shrink)
